@@ -11,7 +11,7 @@ rundemo() {
     pkg=$(grep -m1 '^package ' $D/demo_test.go | awk '{print $2}' | sed 's/_test$//')
     case $pkg in xmss) dir=xmss;; dilithium) dir=dilithium;; misc) dir=misc;; dilithiumjs) dir=qrllib-js/dilithiumjs;; xmssjs) dir=qrllib-js/xmssjs;; *) dir=$pkg;; esac
     cp $D/demo_test.go $W/$dir/zz_seed_demo_test.go
-    (cd $W && timeout 600 go test -vet=off -count=1 $3 ./$dir/ >$D/demo_$1.log 2>&1); rc=$?
+    (cd $W && timeout 600 go test -vet=off -count=1 $2 ./$dir/ >$D/demo_$1.log 2>&1); rc=$?
     rm -f $W/$dir/zz_seed_demo_test.go
     return $rc
   elif [ -d $D/demo ]; then
